@@ -48,6 +48,12 @@ T = {
  "C18": (EX, "§6.18", "TLC judges, from logged per-cell/per-interface data, symmetry, zero-iff-empty, joint linearity (3 runs), pure-pressure isotropy, the full Batchelor sum and the eigen certificate of Frame.principal_stress at every decidable grid position, for catalogue and random Voronoi tissues x grids 1..12 x radii 0.5..6 x random/zero/negative/uniform assignments; the key/grid bookkeeping and the eigen certificate are model-checked exhaustively (grid sizes 1..12, all small symmetric matrices).",
          "sampled inputs; positions within the pi-gap or quantisation margin and degenerate interface vectors are rejected (counted); fixed point Q = 1e6",
          "TLA+ spec (StressTensor.tla) + TLC model of key injectivity and eigen-certificate meta-checks + TLC trace validation of the real stress_tensor"),
+ "C10": (MC, "§6.10", "Explicit TLA+ state machine of the ForSys session (symbolic result terms) model-checked by TLC: NF=2 to 4 calls (quick) / 5 (thorough), NF=1 to 6 / 8, NF=3 to 4; invariants also on 12-call simulated walks. The real ForSys object is driven along TLC's counterexamples, a transition cover and 200 / 3000 twelve-call walks on a 3-frame 9-cell series per seed and judged by TLC after every call (floats projected to fresh-object symbols, rel 1e-9).",
+         "bounded histories; one series per seed; reference = fresh object through the same calls; fix_stress frames masked by KF_FixStress",
+         "TLA+ state machine (Session.tla) model-checked by TLC + TLC-generated behaviours replayed on the real object + TLC trace validation"),
+ "C14": (MC, "§6.14", "TLC enumerates small abstract Surface Evolver dumps (1-3 faces of 3..8 signed edge references, id offsets/gaps, negative references, density present/absent/bare, unattached vertices and edges, body lines permuted) and EVERY cut of every face record into physical lines, checks the transcribed parser against the declarative statement, and every emitted instance is written by an independent serialiser, parsed by the real SurfaceEvolver, a Frame(gt=True) is built and TLC judges the projection clause by clause; large random dumps and the shipped dumps (independent reader) are exploration.",
+         "exhaustive over wrappings x profiles in the stated bounds; character-level layout from the serialiser; rotation of the cycle accepted",
+         "TLA+ spec (SEDump.tla) + TLC bounded-exhaustive enumeration replayed into the code + TLC trace validation"),
 }
 PENDING = "check not integrated yet (being built; see DESIGN.md Appendix D)"
 
